@@ -30,7 +30,7 @@ class Flow:
         return g
 
 
-def gen_wellformed(r, max_tasks=6):
+def gen_wellformed(r, max_tasks=6, pred_prob=0.3, invoke_prob=0.15):
     """A well-formed flow: layered DAG, every output and every param consumed."""
     f = Flow()
     nt = 0
@@ -52,9 +52,9 @@ def gen_wellformed(r, max_tasks=6):
         if avail and r.random() < 0.85:
             ins = r.sample(avail, min(len(avail), r.randint(1, 3)))
         pred = None
-        if r.random() < 0.3:
+        if r.random() < pred_prob:
             pred = r.sample(avail, min(len(avail), r.randint(0, 2))) if avail else []
-        invoke = r.random() < 0.15
+        invoke = r.random() < invoke_prob
         outs = [] if invoke else [fresh() for _ in range(r.randint(1, 2 if r.random() < 0.7 else 3))]
         for t in ins + (pred or []):
             unconsumed.discard(t)
